@@ -3,8 +3,8 @@ from sa import cfg as C
 from sa import paths as P
 from . import common as K
 
-CONFIGS_QUICK = ["A", "E"]
-CONFIGS_THOROUGH = ["A", "B", "C", "D", "E"]
+CONFIGS_QUICK = ["A", "E", "F"]
+CONFIGS_THOROUGH = ["A", "B", "C", "D", "E", "F"]
 
 EXPLANATION = (
     "Static, clause-level decision of C04: TABLES AND WIRING ONLY. Decided: (N1) the special-number "
@@ -96,6 +96,14 @@ def rule_n2(ck, prog, spec):
     unclassified = []
     if rows and rows[-1].get("name") is not None:
         ck.violated("C04-N2", "scpi_units_def/terminator#0", where, "the unit table is not NULL-terminated")
+    ends = [i for i, r in enumerate(rows) if isinstance(r, dict) and r.get("name") is None]
+    if ends and ends[0] != len(rows) - 1:
+        cut = [sval(r.get("name")) for r in rows[ends[0] + 1:] if isinstance(r, dict) and r.get("name") is not None]
+        ck.violated("C04-N2", "scpi_units_def/rows-after-terminator#0", where,
+                    "row %d of %d ends the table: the lookup stops there and the suffixes %s behind it are never found (-131)"
+                    % (ends[0], len(rows), cut))
+    elif ends:
+        ck.holds("C04-N2", "scpi_units_def/rows-after-terminator#0", where, "the only row without a name is the last of %d" % len(rows))
     for i, r in enumerate(rows):
         name = sval(r.get("name"))
         if name is None:
@@ -468,6 +476,59 @@ def rule_n5(ck, prog, S):
         else:
             ck.violated("C04-N5", st, K.loc(g), "compareStr is not a length-exact case-insensitive comparison: %s" % (bad or "no case-insensitive comparison / no TRUE path"))
         ck.analysed(g)
+    # SCPI_ParamNumber: number and suffix are split where the lexer split them
+    pn = prog.fn("SCPI_ParamNumber")
+    if pn is None:
+        ck.anchor_lost("C04-N5", "SCPI_ParamNumber")
+    else:
+        st = K.site(pn, "suffix-split", 0)
+        wsfx = prog.enumconst.get("SCPI_TOKEN_DECIMAL_NUMERIC_PROGRAM_DATA_WITH_SUFFIX")
+        npaths, bad = 0, None
+        try:
+            sums = P.summarize(pn)
+        except P.TooManyPaths:
+            sums = None
+        for ps in sums or []:
+            look = [c for c in ps.calls if c.get("callee") == "transformNumber"]
+            if not look:
+                continue
+            npaths += 1
+            tset = set()
+            for a, pol in ps.facts:
+                if isinstance(pol, tuple) and pol[0] == "case" and (a.get("path") or "").endswith("type"):
+                    tset = set(range(pol[1], pol[2] + 1))
+            if tset != {wsfx}:
+                bad = bad or (look[0], "the unit lookup is reached for token classes %s, not only for a number with suffix" % sorted(tset))
+                continue
+            a = C.call_args(look[0])
+            sp, sl = (a[1].strip_all_casts().get("path") or ""), (a[2].strip_all_casts().get("path") or "")
+            tok = sp[:-len(".ptr")] if sp.endswith(".ptr") else None
+            if tok is None or sl != tok + ".len":
+                bad = bad or (look[0], "the text handed to the unit lookup is (`%s`, `%s`), not a token the lexer produced" % (a[1].src, a[2].src))
+                continue
+            before = ps.calls[:ps.calls.index(look[0])]
+            fills = [c for c in before if len(C.call_args(c)) >= 2 and (C.call_args(c)[1].strip_all_casts().get("path") or "") == "&" + tok]
+            if not fills or fills[-1].get("callee") != "scpiLex_SuffixProgramData":
+                bad = bad or (look[0], "token `%s` was last filled by %s, not by the suffix recogniser"
+                              % (tok, fills[-1].get("callee") if fills else "nothing"))
+                continue
+            state = C.call_args(fills[-1])[0].strip_all_casts().get("path")
+            seq = [c.get("callee") for c in before if (c.get("callee") or "").startswith("scpiLex_") and C.call_args(c) and
+                   C.call_args(c)[0].strip_all_casts().get("path") == state]
+            if seq != ["scpiLex_DecimalNumericProgramData", "scpiLex_WhiteSpace", "scpiLex_SuffixProgramData"]:
+                bad = bad or (fills[-1], "the cursor reaches the suffix through %s; the 488.2 split is mantissa/exponent, optional "
+                              "white space, suffix" % seq)
+        if sums is None:
+            ck.undecided("C04-N5", st, K.loc(pn), "too many paths")
+        elif not npaths:
+            ck.anchor_lost("C04-N5", "SCPI_ParamNumber never reaches transformNumber")
+        elif bad:
+            ck.violated("C04-N5", st, K.loc(pn, bad[0]), bad[1] + ": a suffix the lexer recognised (`0XF` is 0 with suffix XF) "
+                        "is otherwise decoded differently from what was lexed, and an unknown one escapes -131")
+        else:
+            ck.holds("C04-N5", st, K.loc(pn), "%d path(s): decimal, white space, suffix recognisers on one cursor; the suffix token goes "
+                     "to the unit lookup" % npaths)
+        ck.analysed(pn)
     # transformNumber applies mult and unit of the found row
     t = prog.fn("transformNumber")
     if t is not None:
